@@ -317,6 +317,9 @@ class Unit:
             if s.startswith("//@ props") or s.startswith("//@ unit") or s.startswith("//@ tier") or s.startswith("//@ rlimit") or s.startswith("//@#"):
                 i += 1
                 continue
+            optional = s.startswith("//@ fn? ")
+            if optional:
+                s = "//@ fn " + s[len("//@ fn? "):]
             if s.startswith("//@ item ") or s.startswith("//@ fn "):
                 extra = []
                 j = i + 1
@@ -338,7 +341,16 @@ class Unit:
                     parts = shlex.split(tail)
                     name = parts[0]
                     opts = dict(kv.split("=", 1) for kv in parts[1:])
-                    ef = self._extract_fn(opts.get("src", src), header.strip(), name, opts, extra)
+                    try:
+                        ef = self._extract_fn(opts.get("src", src), header.strip(), name, opts, extra)
+                    except Undecided:
+                        if not optional:
+                            raise
+                        # an optional helper (`//@ fn?`) that the source no longer has: nothing to put under contract
+                        lab = "N22 optional helper fn absent from the source: " + name
+                        self.norm[lab] = self.norm.get(lab, 0) + 1
+                        i = j
+                        continue
                     if must_fail and (must_fail is True or must_fail == ef.out_name) and ef.has_contract and not ef.external:
                         if re.search(r"(?m)^\s*ensures\b", ef.text):
                             ef.text = re.sub(r"(?m)^(\s*)ensures\b", r"\1ensures false,", ef.text, count=1)
